@@ -321,6 +321,7 @@ class Ctx:
 
     def __init__(self, F, prop):
         self.F = F
+        _F[0] = F
         self.prop = prop
         self.results = []       # dicts: rule, fn, site, verdict(pass|fail|info), detail, key
         self._ord = {}
@@ -490,14 +491,90 @@ def cond_edges(a, b):
     return c[0], c[1], c[2], t_edges, f_edges
 
 
-def edges_where(a, pred_holds, flags=True):
+def _one(l, r):
+    ty = 'usize'
+    for z in (l, r):
+        if z[0] == 'const' and isinstance(z[2], str) and z[2] in ('usize', 'u64', 'u32', 'u16', 'u8', 'i64', 'i32', 'isize'):
+            ty = z[2]
+    return ('const', 1, ty)
+
+
+def _is_plus_one(e):
+    if e[0] == 'bin' and e[1] in ('Add', 'AddO'):
+        if e[3][0] == 'const' and e[3][1] == 1:
+            return e[2]
+        if e[2][0] == 'const' and e[2][1] == 1:
+            return e[3]
+    return None
+
+
+def comparison_forms(op, l, r):
+    """the comparison and its integer-equivalent spellings with the left side shifted by one:
+    x < y  <=>  x + 1 <= y;   x >= y  <=>  x + 1 > y   (and back).  Only the left operand is rewritten, so a rule that
+    asks for a particular right operand (a limit) still sees exactly that operand."""
+    out = [(op, l, r)]
+    if op == 'Lt':
+        out.append(('Le', ('bin', 'Add', l, _one(l, r)), r))
+    elif op == 'Ge':
+        out.append(('Gt', ('bin', 'Add', l, _one(l, r)), r))
+    x = _is_plus_one(l)
+    if x is not None:
+        if op == 'Le':
+            out.append(('Lt', x, r))
+        elif op == 'Gt':
+            out.append(('Ge', x, r))
+    return out
+
+
+def _holds(pred_holds, op, l, r):
+    for (o, x, y) in comparison_forms(op, l, r):
+        if pred_holds(o, x, y):
+            return True
+    for (o, x, y) in comparison_forms(_SWAP[op], r, l):
+        if pred_holds(o, x, y):
+            return True
+    return False
+
+
+_F = [None]     # fact base of the running check (set by Ctx): lets edges_where look into small predicate helpers
+
+
+def _value_implies(a, defs, pol, pred_holds, base, subst=None):
+    """does "the boolean has value `pol`" imply the predicate?  defs = [(block, expr)]: every assignment (or return
+    value) that can give it the value pol must be a comparison that then satisfies the predicate, or sit in a block only
+    reachable across an edge (`base`) where the predicate holds."""
+    for (blk, rv) in defs:
+        if subst is not None:
+            rv = subst(rv)
+        c = None
+        if rv[0] == 'const' and isinstance(rv[1], (int, bool)):
+            if bool(rv[1]) != pol:
+                continue            # this assignment cannot produce the value seen on the edge
+        else:
+            c = as_comparison(rv)
+        if c is not None:
+            oper = c[0] if pol else _NEG[c[0]]
+            if _holds(pred_holds, oper, c[1], c[2]):
+                continue
+        if not (base and a.cfg.must_pass(blk, via_edges=base)):
+            return False
+    return True
+
+
+def edges_where(a, pred_holds, flags=True, _depth=0):
     """all CFG edges on which a comparison satisfying `pred_holds(op, lhs, rhs) -> True/False/None` is known to hold.
-    pred_holds gets the canonical comparison that is TRUE on the edge (both orientations are tried by the caller).
-    With `flags`, a switch on a boolean variable that records such a test (`let fits = if a > A { false } else
-    { b <= B }; if fits { .. }`) contributes too: an edge on which the variable has value v counts when every
-    assignment that can give it the value v either is a comparison that then satisfies the predicate or sits in a block
-    that is itself only reachable across an edge where the predicate holds.  (Limits: the comparison is evaluated at
-    the assignment, not at the switch; function-level must-pass, not per loop iteration.)"""
+    pred_holds gets the canonical comparison that is TRUE on the edge; both orientations and the integer-equivalent
+    spellings of comparison_forms are tried.
+    With `flags`, two indirect forms contribute too:
+      * a switch on a boolean variable that records such a test (`let fits = if a > A { false } else { b <= B };
+        if fits { .. }`): an edge on which the variable has value v counts when every assignment that can give it the
+        value v either is a comparison that then satisfies the predicate or sits in a block that is itself only
+        reachable across an edge where the predicate holds;
+      * a switch on the result of a small same-workspace predicate function (`if self.would_overflow(n) { .. }`): the
+        same reasoning over the function's return sites, with its parameters replaced by the call's arguments (one
+        level).
+    (Limits: the comparison is evaluated at the assignment / inside the helper, not at the switch; function-level
+    must-pass, not per loop iteration.)"""
     out = []
     for b in sorted(a.cfg.reach0):
         ce = cond_edges(a, b)
@@ -505,7 +582,7 @@ def edges_where(a, pred_holds, flags=True):
             continue
         op, l, r, te, fe = ce
         for (oper, edges) in ((op, te), (_NEG[op], fe)):
-            if pred_holds(oper, l, r) or pred_holds(_SWAP[oper], r, l):
+            if _holds(pred_holds, oper, l, r):
                 out.extend(edges)
     if not flags:
         return out
@@ -519,34 +596,46 @@ def edges_where(a, pred_holds, flags=True):
         while e[0] == 'un' and e[1] == 'Not':
             neg = not neg
             e = e[2]
-        if e[0] != 'local' or a.flow.lty(e[1]) != 'bool':
-            continue
-        ds = a.flow.defs.get(e[1], [])
-        if len(ds) < 2 or not all(d[0] == 'assign' for d in ds) or e[1] in a.flow.partial:
+        defs = None
+        subst = None
+        ha = a
+        hbase = base
+        if e[0] == 'local' and a.flow.lty(e[1]) == 'bool':
+            ds = a.flow.defs.get(e[1], [])
+            if len(ds) >= 2 and all(d[0] == 'assign' for d in ds) and e[1] not in a.flow.partial:
+                defs = [(d[1], a.flow.rvalue(d[3], 0)) for d in ds]
+        elif e[0] == 'call' and _depth == 0 and _F[0] is not None and not e[1].startswith(('core::', 'alloc::', 'std::')):
+            F = _F[0]
+            norm = F.__dict__.get('_norm')
+            if norm is None:
+                norm = F.__dict__['_norm'] = {strip_generics(p): p for p in F.bodies}
+            q = norm.get(strip_generics(e[1]))
+            hb = F.bodies.get(q) if q else None
+            if hb is not None and not hb.get('coroutine') and hb['locals'][0].get('ty') == 'bool':
+                ha = an(hb)
+                args = e[2]
+
+                def subst(x, args=args):
+                    return _subst_params(x, args)
+                hbase = edges_where(ha, lambda op, l, r: pred_holds(op, subst(l), subst(r)), flags=True, _depth=1)
+                defs = [(rb, re_) for (rb, si, k, re_) in ha.ret_sites()]
+        if defs is None:
             continue
         f_edges = [(b, tgt) for v, tgt in t['ts'] if str(v) == '0']
         t_edges = [(b, s_) for s_ in a.cfg.succ[b] if (b, s_) not in f_edges]
         for pol, edges in ((True, t_edges), (False, f_edges)):
             pol_ = (not pol) if neg else pol
-            ok = True
-            for d in ds:
-                rv = a.flow.rvalue(d[3], 0)
-                if rv[0] == 'const' and isinstance(rv[1], (int, bool)):
-                    if bool(rv[1]) != pol_:
-                        continue            # this assignment cannot produce the value seen on the edge
-                    c = None
-                else:
-                    c = as_comparison(rv)
-                if c is not None:
-                    oper = c[0] if pol_ else _NEG[c[0]]
-                    if pred_holds(oper, c[1], c[2]) or pred_holds(_SWAP[oper], c[2], c[1]):
-                        continue
-                if not (base and a.cfg.must_pass(d[1], via_edges=base)):
-                    ok = False
-                    break
-            if ok:
+            if _value_implies(ha, defs, pol_, pred_holds, hbase, subst):
                 out.extend(edges)
     return out
+
+
+def _subst_params(e, args):
+    if not isinstance(e, tuple):
+        return e
+    if e[0] == 'param' and 1 <= e[1] <= len(args):
+        return args[e[1] - 1]
+    return tuple(_subst_params(x, args) if isinstance(x, tuple) else ([_subst_params(y, args) for y in x] if isinstance(x, list) else x) for x in e)
 
 
 def success_edges(a, cb):
